@@ -229,20 +229,59 @@ def typing_rules(ctx, rule='A17c'):
                short(m.body[-1]))
     if n < 2:
         raise AnalysisError('fewer than two _choose_metric_type implementations found')
-    # definitions
-    for cls_name, dirs in (('Objective', ('Direction.MIN', 'Direction.MAX')), ('Constraint', ('Direction.LTE', 'Direction.GTE'))):
+    # definitions: from_metric_node interpreted for every (direction, reference) combination
+    REF = 5.5
+    for cls_name, dirs, needs_ref in (('Objective', ('MIN', 'MAX'), False), ('Constraint', ('LTE', 'GTE'), True)):
         f = ctx.fn(f'adsg_core.optimization.dv_output_defs:{cls_name}.from_metric_node')
-        t = FnText(ctx, f)
-        ok = f'direction = {dirs[0]} if metric_node.dir <= 0 else {dirs[1]}' in t and \
-            'if metric_node.dir is None' in t
+        if len(f.params) < 2:
+            raise AnalysisError(f'{cls_name}.from_metric_node: signature changed')
+        node_p = f.params[1]
+        helpers = {h.name: h for h in unit_functions(ctx.prog, f)[1:]}
+        table = {}
+        for d in (None, -1, 0, 2):
+            for r in (None, REF):
+                def oracle(kind, node, args, path, d=d, r=r):
+                    if kind == 'attr' and isinstance(args[0], absint.Sym) and args[0].term == ('name', node_p):
+                        if node.attr == 'dir':
+                            return d
+                        if node.attr == 'ref':
+                            return r
+                        if node.attr == 'idx':
+                            return None
+                    return absint.NOTHING
+                paths = absint.Interp(f, helpers, oracle).run()
+                outs = set()
+                for q in paths:
+                    if q.outcome[0] == 'raise':
+                        outs.add(('raise',))
+                        continue
+                    t = absint._t(q.outcome[1]) if q.outcome[0] == 'return' else None
+                    if not (isinstance(t, tuple) and t[0] == 'call' and t[1] == ('name', f.params[0])):
+                        raise AnalysisError(f'{cls_name}.from_metric_node: unrecognised result {absint.fmt(t)[:80]}')
+                    args_ = [x for x in t[2] if not (isinstance(x, tuple) and len(x) == 2 and isinstance(x[0], str)
+                                                    and x[0] == 'node')]
+                    direction = [x[2] for x in args_ if isinstance(x, tuple) and x[:2] == ('attr', ('name', 'Direction'))]
+                    outs.add(('ok', direction[0] if direction else None, REF in args_))
+                table[(d, r)] = outs
+        ok = True
+        bad = ''
+        for (d, r), outs in table.items():
+            if d is None or (needs_ref and r is None):
+                want = {('raise',)}
+            else:
+                want = {('ok', dirs[0] if d <= 0 else dirs[1], needs_ref)} if r is not None else \
+                    {('ok', dirs[0] if d <= 0 else dirs[1], False)}
+            if outs != want:
+                ok = False
+                bad = bad or f'direction {d}, reference {r}: {sorted(outs)} instead of {sorted(want)}'
         ctx.ob(rule, fkey(f, rule, 'direction-mapping'), ok, f.where,
-               f'{cls_name}: direction <= 0 maps to {dirs[0]}, > 0 to {dirs[1]}; a metric without direction is '
-               f'rejected', '')
-    f = ctx.fn('adsg_core.optimization.dv_output_defs:Constraint.from_metric_node')
-    t = FnText(ctx, f)
-    ok = 'if metric_node.ref is None' in t and 'cls(name, metric_node.ref, direction, node=metric_node)' in t
-    ctx.ob(rule, fkey(f, rule, 'constraint-carries-reference'), ok, f.where,
-           'a constraint carries the reference value of its metric node (and requires one)', '')
+               f'{cls_name}: direction <= 0 maps to Direction.{dirs[0]}, > 0 to Direction.{dirs[1]}; a metric without '
+               f'direction' + (' or without reference value' if needs_ref else '') + ' is rejected' +
+               ('; the constraint carries the reference value of its node' if needs_ref else ''), bad)
+        if needs_ref:
+            ctx.ob(rule, fkey(f, rule, 'constraint-carries-reference'),
+                   all(x[2] for outs in table.values() for x in outs if x[0] == 'ok'), f.where,
+                   'a constraint carries the reference value of its metric node (and requires one)', bad)
 
 
 def evaluate_rules(ctx, rule='A17e'):
